@@ -117,15 +117,18 @@ impl<'b, 'tx> BucketName<'b, 'tx> {
     }
 }
 
+// The name may point into the memory map, which is only guaranteed to stay valid for as long as the
+// transaction that produced this BucketName is borrowed ('b). The result of to_bytes is not tied to
+// that borrow, so it has to own its bytes.
 impl<'b, 'tx> ToBytes<'tx> for BucketName<'b, 'tx> {
     fn to_bytes(self) -> Bytes<'tx> {
-        self.name
+        Bytes::Bytes(bytes::Bytes::copy_from_slice(self.name.as_ref()))
     }
 }
 
 impl<'b, 'tx> ToBytes<'tx> for &BucketName<'b, 'tx> {
     fn to_bytes(self) -> Bytes<'tx> {
-        self.name.clone()
+        Bytes::Bytes(bytes::Bytes::copy_from_slice(self.name.as_ref()))
     }
 }
 
